@@ -232,6 +232,9 @@ def main(tier, seed):
             ctx.fail('detached table: get_refs does not raise the unknown-database error', {'op': 'get_refs', 'case': [h, d]}, got=gt)
         if not h and gc != 'lib:TableNotFoundError':
             ctx.fail('detached column: get_refs does not raise the table-not-found error', {'op': 'get_refs', 'case': [h, d]}, got=gc)
+        if h and not d and gc != 'lib:UnknownDatabaseError':
+            ctx.fail('column of a detached table: get_refs does not raise the unknown-database error (e.g. returns an empty list)',
+                     {'op': 'get_refs', 'case': [h, d]}, got=gc)
         if gm is not None and (gm[i].get('table'), gm[i].get('column')) != (gt, gc):
             ctx.diverge('get_refs outcome', {'op': 'get_refs', 'case': [h, d]}, gm[i], [gt, gc])
     if drv is not None:
